@@ -309,13 +309,21 @@ func Concrete(m Member, tag string) (string, map[string]any) {
 		} else {
 			txt = fmt.Sprintf(`{"jsonrpc":"2.0","method":%q,"params":%s}`, meth, params)
 		}
-	case "reply":
+	case "reply": // a result or an error; spelled strictly, or - still recognisably a reply - without the version, with another, with an unknown member
+		body := fmt.Sprintf(`"result":%q`, tag)
+		abs["err"] = m.Var%2 == 1
 		if m.Var%2 == 1 {
-			txt = fmt.Sprintf(`{"jsonrpc":"2.0","id":%s,"error":{"code":-7,"message":"tag=%s refused"}}`, id, tag)
-			abs["err"] = true
-		} else {
-			txt = fmt.Sprintf(`{"jsonrpc":"2.0","id":%s,"result":%q}`, id, tag)
-			abs["err"] = false
+			body = fmt.Sprintf(`"error":{"code":-7,"message":"tag=%s refused"}`, tag)
+		}
+		switch m.Var % 6 {
+		case 2, 5:
+			txt = fmt.Sprintf(`{"id":%s,%s}`, id, body)
+		case 3:
+			txt = fmt.Sprintf(`{"jsonrpc":"2.0","id":%s,%s,"took_ms":3}`, id, body)
+		case 4:
+			txt = fmt.Sprintf(`{"jsonrpc":"1.0","id":%s,%s}`, id, body)
+		default:
+			txt = fmt.Sprintf(`{"jsonrpc":"2.0","id":%s,%s}`, id, body)
 		}
 	case "inv":
 		switch {
